@@ -5,7 +5,7 @@ from hypothesis import strategies as st
 
 from conda_content_trust import authentication as A
 
-from vlib import gen_envelope as GE, gen_json as G, gen_metadata as GM, keys, ref_openpgp, ref_verify as RV
+from vlib import gen_envelope as GE, gen_json as G, gen_metadata as GM, keys, ref_openpgp, ref_verify as RV, related
 from vlib.ref_canon import canon
 from vlib.runner import Unit, Violation
 
@@ -33,6 +33,42 @@ def _info(case, env, lo, up, observed):
             "gray": lo < thr <= up}
 
 
+def history_probes(call, env, authorized_of, threshold_of, gpg, what):
+    """After the main call: the same question on related inputs, in the same process (see vlib/related.py).
+    call(envelope) -> outcome.  Soundness must hold for each of them too.  The in-place mutation of the very
+    object just verified comes first, so that it immediately follows the call it is related to."""
+    import copy
+    original = copy.deepcopy(env)
+    n = 0
+    if related.inplace_mutate(env["signed"]):
+        n += _probe_one(call, env, authorized_of, threshold_of, gpg, what, "the SAME payload object mutated in place")
+    e2 = copy.deepcopy(original)
+    call(e2)
+    if related.inplace_mutate_nested(e2["signed"]):
+        n += _probe_one(call, e2, authorized_of, threshold_of, gpg, what,
+                        "a nested container of the SAME payload object mutated in place")
+    call(copy.deepcopy(original))
+    r = related.eq_retype(original["signed"])
+    if r is not None:
+        n += _probe_one(call, dict(copy.deepcopy(original), signed=r), authorized_of, threshold_of, gpg, what,
+                        "payload retyped between ==-equal JSON values, signatures kept")
+    call(copy.deepcopy(original))
+    n += _probe_one(call, dict(copy.deepcopy(original), signed=related.field_change(original["signed"])),
+                    authorized_of, threshold_of, gpg, what, "payload changed, signatures kept (new object)")
+    return n
+
+
+def _probe_one(call, e, authorized_of, threshold_of, gpg, what, name):
+    obs = call(e)
+    for auth, thr in zip(authorized_of(e), threshold_of(e)):
+        lo, up = RV.count_bounds(e, auth, gpg)
+        if obs == "accept" and up < thr:
+            raise Violation("%s accepted with at most %d valid authorized signers for threshold %d on a related input "
+                            "presented after an earlier call: %s" % (what, up, thr, name),
+                            bucket="false accept (history) " + what)
+    return 1
+
+
 def check_signable(case):
     env = GE.to_envelope(case)
     observed, _ = RV.outcome(A.verify_signable, env, case["authorized"], case["threshold"], gpg=case["gpg"])
@@ -40,7 +76,11 @@ def check_signable(case):
     if observed == "accept" and up < case["threshold"]:
         raise Violation("verify_signable accepted with at most %d valid authorized signers for threshold %d "
                         "(entries: %s)" % (up, case["threshold"], GE.labels(case)), bucket="false accept verify_signable")
-    return _info(case, env, lo, up, observed)
+    info = _info(case, env, lo, up, observed)
+    n = history_probes(lambda e: RV.outcome(A.verify_signable, e, case["authorized"], case["threshold"], gpg=case["gpg"])[0],
+                       env, lambda e: [case["authorized"]], lambda e: [case["threshold"]], case["gpg"], "verify_signable")
+    info["count"] = {"history_probes": n}
+    return info
 
 
 ROLES = ["pkg_mgr", "key_mgr", "root", "x y"]
@@ -71,7 +111,11 @@ def check_delegation(case):
     if observed == "accept" and up < case["threshold"]:
         raise Violation("verify_delegation accepted with at most %d valid authorized signers for threshold %d (%s)"
                         % (up, case["threshold"], GE.labels(case)), bucket="false accept verify_delegation")
-    return _info(case, env, lo, up, observed)
+    info = _info(case, env, lo, up, observed)
+    n = history_probes(lambda e: RV.outcome(A.verify_delegation, case["role"], e, T, gpg=case["gpg"])[0],
+                       env, lambda e: [auth], lambda e: [case["threshold"]], case["gpg"], "verify_delegation")
+    info["count"] = {"history_probes": n}
+    return info
 
 
 @st.composite
